@@ -106,10 +106,17 @@ def _returns_in_loops(fn):
         if isinstance(x, (ast.For, ast.While, ast.With, ast.Try)) and x is not fn:
             if isinstance(x, ast.Try) and body and x is body[-1] and not x.finalbody:
                 continue          # `try: return f(..) except E: raise/return ..` as the last statement: handled by _conv
+            if isinstance(x, ast.Try) and any(x is b for b in body) and _handlers_leave(x):
+                continue          # `try: v = f(..) except E: return None` followed by more: the rest becomes the try's else
             for y in _own_nodes(x):
                 if isinstance(y, ast.Return):
                     return True
     return False
+
+
+def _handlers_leave(t):
+    """A try without else/finally whose body does not return and whose every handler leaves the function."""
+    return not t.finalbody and not t.orelse and not _has_return(t.body) and t.handlers and all(_always_exits(h.body) for h in t.handlers)
 
 
 def _forwards_only(fn):
@@ -224,6 +231,14 @@ def _conv(stmts, make):
             # last statement: each part of the try ends the helper, so the returns become the caller's statement in place
             new = ast.Try(body=_conv(list(s.body), make), handlers=[ast.ExceptHandler(type=h.type, name=h.name, body=_conv(list(h.body), make)) for h in s.handlers],
                           orelse=_conv(list(s.orelse), make) if s.orelse else [], finalbody=[])
+            out.append(new)
+            return out
+        if isinstance(s, ast.Try) and _handlers_leave(s) and _has_return([s]):
+            # the handlers leave; what follows the try runs only when nothing was caught, i.e. it is the try's else-clause
+            # (where, as before, the handlers do not apply to it)
+            rest = stmts[i + 1:]
+            new = ast.Try(body=list(s.body), handlers=[ast.ExceptHandler(type=h.type, name=h.name, body=_conv(list(h.body), make)) for h in s.handlers],
+                          orelse=_conv(list(rest), make), finalbody=[])
             out.append(new)
             return out
         if isinstance(s, ast.If) and (_has_return(s.body) or _has_return(s.orelse)):
@@ -587,6 +602,9 @@ class _Inliner:
         if fn.args.vararg or fn.args.kwarg:
             fw = _Forward(fn.args.vararg.arg if fn.args.vararg else None, extra, fn.args.kwarg.arg if fn.args.kwarg else None, extrakw)
             body = [fw.visit(x) for x in body]
+        cm = getattr(self, 'cur_mod', None)
+        if cm is not None and cm != mod and cls is None:
+            body = self._qualify(body, mod, cm, set(mapping) | assigned)
         sub = _Subst(mapping)
         body = [sub.visit(x) for x in body]
         body = _prune(body)            # a constant passed for a flag parameter decides the helper's branches
@@ -659,6 +677,40 @@ class _Inliner:
         new = copy.copy(fn)
         new.body = body[:start] + body[i:]
         return new
+
+    def _module_names(self, mod):
+        """Names bound at the top level of a module: definitions, assignments, imports."""
+        out = set()
+        for n in self.mods[mod].body:
+            if isinstance(n, (ast.FunctionDef, ast.ClassDef)):
+                out.add(n.name)
+            elif isinstance(n, ast.Assign):
+                out |= {t.id for t in n.targets if isinstance(t, ast.Name)}
+            elif isinstance(n, ast.AnnAssign) and isinstance(n.target, ast.Name):
+                out.add(n.target.id)
+            elif isinstance(n, ast.Import):
+                out |= {(a.asname or a.name.split('.')[0]) for a in n.names}
+            elif isinstance(n, ast.ImportFrom):
+                out |= {(a.asname or a.name) for a in n.names}
+        return out
+
+    def _qualify(self, body, home, here, local_names):
+        """A module-level helper of module ``home`` is folded into module ``here``: names it takes from its own module and that
+        mean nothing (or could mean something else) in the other module are written as home.name."""
+        home_names, here_names = self._module_names(home), self._module_names(here)
+        qual = ast.Name(id=home, ctx=ast.Load()) if home in here_names else \
+            ast.Attribute(value=ast.Name(id='bitstring', ctx=ast.Load()), attr=home, ctx=ast.Load())
+        plain_imports = {(a.asname or a.name.split('.')[0]) for n in self.mods[home].body if isinstance(n, ast.Import) for a in n.names}
+        need = {n for n in home_names if n not in here_names and n not in local_names and n not in plain_imports}
+        if not need:
+            return body
+
+        class Q(ast.NodeTransformer):
+            def visit_Name(self, node):
+                if isinstance(node.ctx, ast.Load) and node.id in need:
+                    return ast.copy_location(ast.Attribute(value=copy.deepcopy(qual), attr=node.id, ctx=ast.Load()), node)
+                return node
+        return [Q().visit(b) for b in body]
 
     def _process_list(self, stmts, cands, caller=None):
         changed = False
@@ -766,6 +818,7 @@ class _Inliner:
                         if _uses_super(info[3]) and (cls != info[2] or mod != info[1]) and any(
                                 isinstance(x, ast.Call) and self._call_kind(x, name, info) is not None for x in ast.walk(fn)):
                             raise _Blocked()       # zero-argument super() means something else in another class
+                        self.cur_mod = mod
                         new, ch = self._process_list(fn.body, one, fn)
                         if ch:
                             fn.body = new
@@ -794,7 +847,7 @@ class _Inliner:
                         # leave each rewritten caller in its normal form (the next helper may only become integrable then)
                         for key2, mod2, cls2, fn2, _c2 in list(_functions(self.mods)):
                             if key2 in touched.get(mod2, ()):
-                                nb = [_OperatorCalls(_literal_tables(self.mods[mod2])).visit(b) for b in fn2.body]
+                                nb = _prune([_OperatorCalls(_literal_tables(self.mods[mod2]), _all_tables(self.mods, self), mod2).visit(b) for b in fn2.body])
                                 fn2.body = nb
                                 tidy(fn2)
                         cands.pop(name)
@@ -1021,6 +1074,12 @@ def _literal_tables(tree):
     return out
 
 
+def _all_tables(mods, inl):
+    out = {m_: _literal_tables(t) for m_, t in mods.items() if m_ != 'luts'}
+    out['*names'] = {m_: inl._module_names(m_) for m_ in mods if m_ != 'luts'}
+    return out
+
+
 def _simple_literal(e, depth=0):
     if isinstance(e, (ast.Name, ast.Constant)):
         return True
@@ -1033,12 +1092,59 @@ def _simple_literal(e, depth=0):
     return False
 
 
+class _QualifyLiteral(ast.NodeTransformer):
+    def __init__(self, qual, names):
+        self.qual, self.names = qual, names
+
+    def visit_Name(self, node):
+        if isinstance(node.ctx, ast.Load) and node.id in self.names:
+            return ast.Attribute(value=copy.deepcopy(self.qual), attr=node.id, ctx=ast.Load())
+        return node
+
+
 class _OperatorCalls(ast.NodeTransformer):
     """operator.and_(a, b) -> a & b (what it means), so that an operator handed to a merged helper reads as the operator.
     The in-place forms are only rewritten where they mean exactly an augmented assignment: `X = operator.ior(X, Y)` -> `X |= Y`
     (anywhere else they stay calls: `a | b` would hide that the left operand is modified)."""
-    def __init__(self, tables=None):
+    def __init__(self, tables=None, other_tables=None, here=None):
         self.tables = tables or {}
+        self.other = other_tables or {}       # {module name: its literal tables}
+        self.here = here                      # name of the module being rewritten
+
+    def visit_IfExp(self, node):
+        self.generic_visit(node)
+        # the same thing either way (and a test without calls): the thing
+        if ast.dump(node.body) == ast.dump(node.orelse) and not any(isinstance(y, (ast.Call, ast.NamedExpr, ast.Await)) for y in ast.walk(node.test)):
+            return node.body
+        return node
+
+    def visit_BoolOp(self, node):
+        self.generic_visit(node)
+        # literal True / False operands of and / or
+        vals = []
+        for v in node.values:
+            if isinstance(v, ast.UnaryOp) and isinstance(v.op, ast.Not) and isinstance(v.operand, ast.Constant) and isinstance(v.operand.value, bool):
+                v = ast.Constant(value=not v.operand.value)
+            vals.append(v)
+        out = []
+        for i, v in enumerate(vals):
+            if isinstance(v, ast.Constant) and isinstance(v.value, bool):
+                if isinstance(node.op, ast.And):
+                    if v.value:
+                        continue
+                    return v if not out else ast.BoolOp(op=node.op, values=out + [v]) if len(out) else v
+                else:
+                    if not v.value:
+                        continue
+                    return v if not out else ast.BoolOp(op=node.op, values=out + [v])
+            out.append(v)
+        if not out:
+            return ast.Constant(value=isinstance(node.op, ast.And))
+        if len(out) == 1 and len(out) != len(vals):
+            return out[0] if isinstance(out[0], (ast.Compare, ast.UnaryOp, ast.BoolOp)) or True else out[0]
+        if len(out) != len(vals):
+            return ast.BoolOp(op=node.op, values=out)
+        return node
 
     def visit_Subscript(self, node):
         self.generic_visit(node)
@@ -1047,6 +1153,13 @@ class _OperatorCalls(ast.NodeTransformer):
         base = node.value
         if isinstance(base, ast.Name) and base.id in self.tables:
             base = self.tables[base.id]
+        elif isinstance(base, ast.Attribute) and isinstance(base.value, (ast.Name, ast.Attribute)):
+            modname = ast.unparse(base.value).split('.')[-1]
+            if modname in self.other and base.attr in self.other[modname]:
+                # a table of another module: what it lists is written in that module's terms
+                tbl = self.other[modname][base.attr]
+                names_ = self.other.get('*names', {})
+                base = _QualifyLiteral(copy.deepcopy(base.value), names_.get(modname, set()) - names_.get(self.here, set())).visit(copy.deepcopy(tbl))
         # TABLE['key'] / {..}['key'] with a literal key the literal lists: the value it lists
         if isinstance(base, ast.Dict) and isinstance(node.slice, ast.Constant) and all(k is not None and isinstance(k, ast.Constant) for k in base.keys):
             hits = [v for k, v in zip(base.keys, base.values) if k.value == node.slice.value and type(k.value) is type(node.slice.value)]
@@ -1113,6 +1226,13 @@ def _noneness(v):
         last = v.func.id if isinstance(v.func, ast.Name) else v.func.attr
         if last[:1].isupper():
             return False          # instantiating a class (CreationError(...)) never gives None
+        builtin_values = ('int', 'str', 'bytes', 'float', 'bool', 'len', 'abs', 'bin', 'hex', 'oct', 'tuple', 'list', 'dict', 'set', 'frozenset',
+                          'bytearray', 'repr', 'format', 'sum', 'round', 'divmod', 'ord', 'chr', 'sorted', 'reversed', 'range', 'enumerate', 'zip')
+        if isinstance(v.func, ast.Name) and v.func.id in builtin_values:
+            return False
+        if isinstance(v.func, ast.Attribute) and isinstance(v.func.value, ast.Name) and v.func.value.id in ('int', 'str', 'bytes', 'float', 'bytearray') \
+                and v.func.attr in ('from_bytes', 'fromhex', 'join', 'format', 'maketrans'):
+            return False          # int.from_bytes(..) and the like
     return None
 
 
@@ -1165,7 +1285,37 @@ def _thread(stmts):
                     changed = True
                     break
         i += 1
+    # the same through a try: each handler and the else-clause end by binding r
+    i = 0
+    while i < len(out) - 1:
+        s, nxt = out[i], out[i + 1]
+        if isinstance(s, ast.Try) and s.orelse and not s.finalbody and isinstance(nxt, ast.If):
+            st = _sentinel_test(nxt.test)
+            if st is not None:
+                name, when_none = st
+                parts = [h.body for h in s.handlers] + [s.orelse]
+                vals = [_last_binding(p_, name) for p_ in parts]
+                nones = [(_noneness(v) if v is not None else None) for v in vals]
+                bound_in_body = any(isinstance(y, ast.Name) and y.id == name and isinstance(y.ctx, ast.Store) for b in s.body for y in ast.walk(b))
+                if all(n_ is not None for n_ in nones) and not bound_in_body:
+                    rest = out[i + 2:]
+
+                    def cont2(is_none):
+                        taken = nxt.body if is_none == when_none else nxt.orelse
+                        return copy.deepcopy(list(taken)) + ([] if _always_exits(taken) else copy.deepcopy(rest))
+                    for h, n_ in zip(s.handlers, nones[:-1]):
+                        h.body = list(h.body) + cont2(n_)
+                    s.orelse = list(s.orelse) + cont2(nones[-1])
+                    out = out[:i + 1]
+                    changed = True
+                    break
+        i += 1
     for s in out:
+        for h in getattr(s, 'handlers', []) or []:
+            new, ch = _thread(h.body)
+            if ch:
+                h.body = new
+                changed = True
         for fld in ('body', 'orelse', 'finalbody'):
             sub = getattr(s, fld, None)
             if isinstance(sub, list) and sub and isinstance(sub[0], ast.stmt) and not isinstance(s, (ast.FunctionDef, ast.ClassDef)):
@@ -1188,6 +1338,14 @@ def _unnest(stmts):
                 if ch:
                     setattr(s, fld, new)
                     changed = True
+        if isinstance(s, ast.Try) and s.orelse and not s.finalbody and s.handlers and all(_always_exits(h.body) for h in s.handlers) and s is stmts[-1]:
+            # `try: A except E: <leaves> else: B` is `try: A except E: <leaves>` followed by B
+            tail = s.orelse
+            s.orelse = []
+            out.append(s)
+            out.extend(tail)
+            changed = True
+            continue
         if isinstance(s, ast.If) and s.orelse and _always_exits(s.body) and s is stmts[-1]:
             tail = s.orelse
             s.orelse = []
@@ -1871,9 +2029,10 @@ def integrate(mods, src):
                         lines.setdefault(f'{n.name}.{k.name}', k.lineno)
         tree = mods[mod]
         tabs = _literal_tables(tree)
+        others = _all_tables(mods, inl)
         for key, m2, cls, fn, container in list(_functions({mod: tree})):
             if key in touched[mod]:
-                fn.body = [_OperatorCalls(tabs).visit(b) for b in fn.body]
+                fn.body = _prune([_OperatorCalls(tabs, others, mod).visit(b) for b in fn.body]) or [ast.Pass()]
                 tidy(fn)
         ast.fix_missing_locations(tree)
         mods[mod] = ast.parse(ast.unparse(tree))
